@@ -580,7 +580,8 @@ top:
 			lexer.AppendToken(lexer.Token(TokenTildeAt, ""))
 		} else {
 			lexer.AppendToken(lexer.Token(TokenTilde, ""))
-			lexer.buffer.WriteRune(r)
+			lexer.state = LexerNormal
+			goto top // process the rune after '~' in Normal mode
 		}
 		lexer.state = LexerNormal
 		return nil
